@@ -23,8 +23,9 @@ RULES = {
     'R10': 'descriptor 0 is a descriptor: no teardown or cleanup path of the transports decides whether a socket is open by comparing it with > 0 (the server\'s accept() returns 0 when stdin is closed; skipping it leaves its poll entry behind, and the entry outlives the connection), and the client\'s connect cleanup closes a socket only where it is known to have been opened (>= 0, after being preset to -1) - it used to close(0) for sockets it had never opened',
     'R11': 'what is not a disconnect is not taken for one (is_connected, once cleared, stays cleared and the client then no longer waits): qb_ipc_us_sock_error_is_disconnected, evaluated for each error code, answers no for the transient results - EAGAIN, ETIMEDOUT, EINTR, EMSGSIZE, ENOMSG, EINVAL and ENOBUFS (the caller\'s receive buffer is too small for the message that is waiting) - and yes for ENOTCONN, ECONNRESET, EPIPE, ESHUTDOWN, EBADF',
     'R12': 'the last reference takes the connection off the service\'s list and gives the service reference back on every path to the free (= C04.R3): a client that dies while its connection is being set up (state ACTIVE, set back to INACTIVE by the teardown) is not freed while still listed',
+    'R13': 'a connection given up while ACTIVE has its transport taken down by qb_ipcs_disconnect itself: that branch sets the state back to INACTIVE before the last reference goes, and in INACTIVE the transport disconnect releases nothing - leaving the teardown to the final unref leaks the rings / sockets / files of a client that died before it was told (= C04.R1 disconnect:ACTIVE)',
 }
-FLOORS = {'R1': 9, 'R2': 10, 'R3': 11, 'R4': 7, 'R5': 6, 'R6': 3, 'R7': 2, 'R8': 2, 'R9': 7, 'R10': 3, 'R11': 12, 'R12': 2}
+FLOORS = {'R1': 9, 'R2': 10, 'R3': 11, 'R4': 7, 'R5': 6, 'R6': 3, 'R7': 2, 'R8': 2, 'R9': 7, 'R10': 3, 'R11': 12, 'R12': 2, 'R13': 1}
 
 POLLNVAL, POLLHUP, POLLIN = 0x20, 0x10, 0x1
 
@@ -48,6 +49,13 @@ def run(ctx):
     for r in sub.results:
         if r['key'].endswith('-on-every-path-to-free'):
             r['rule'] = 'R12'
+            ctx.results.append(r)
+    # R13 = the part of C04.R1 that is about a connection torn down while still ACTIVE (its client died before it was told)
+    sub = type(ctx)(ctx.prog, ctx.prop, ctx.tier, ctx.depth)
+    c04.r1(sub, ctx.prog.enum('qb_ipcs_connection_state'))
+    for r in sub.results:
+        if r['key'].startswith('disconnect:ACTIVE'):
+            r['rule'] = 'R13'
             ctx.results.append(r)
 
 
